@@ -126,6 +126,8 @@ type round struct {
 	Output     []tun    `json:"output"`
 	Generated  []string `json:"generated"`
 	Published  []string `json:"published"`
+	GenFault   string   `json:"generate_fault,omitempty"` // which GenerateHostname calls were scripted to fail
+	GenFailed  int      `json:"generate_failed"`
 }
 
 func main() {
@@ -231,10 +233,28 @@ func main() {
 			in := fromClient(rig.Client.GetCurrentConfig().Tunnels)
 			regBefore, _, _, _ := svc.Snapshot()
 			svc.ResetLog()
+			// in a third of the synchronisations the server refuses some hostname requests
+			fault := ""
+			switch rng.Intn(9) {
+			case 0:
+				fault = "always"
+				svc.SetGenFail(func(int) bool { return true })
+			case 1:
+				k := 1 + rng.Intn(4)
+				fault = fmt.Sprintf("from call %d", k)
+				svc.SetGenFail(func(n int) bool { return n >= k })
+			case 2:
+				k := 1 + rng.Intn(4)
+				fault = fmt.Sprintf("only call %d", k)
+				svc.SetGenFail(func(n int) bool { return n == k })
+			default:
+				svc.SetGenFail(nil)
+			}
 			rig.Client.SyncConfigTunnels(rig.Ctx)
 			out := fromClient(rig.Client.GetCurrentConfig().Tunnels)
 			_, generated, published, calls := svc.Snapshot()
-			rd := round{Input: in, Registered: regBefore, Output: out, Generated: generated, Published: published}
+			rd := round{Input: in, Registered: regBefore, Output: out, Generated: generated, Published: published, GenFault: fault, GenFailed: svc.Failed()}
+			svc.SetGenFail(nil)
 			caseNo++
 			cname := fmt.Sprintf("%s/round%d", name, ro)
 			judge(r, cname, name, ro, rd, calls, path)
@@ -291,11 +311,22 @@ func judge(r *ev.Run, cname, replay string, ro int, rd round, calls []string, pa
 		if nb > 3 {
 			nb = 3
 		}
-		sig = fmt.Sprintf("r%d/n%d/%s/ud%v/ur%v/c%v", ro, nb, rel, unusedDotted, usedRegistered, len(configured) > 0)
+		fk := "ok"
+		if rd.GenFailed > 0 {
+			fk = "genfail-first"
+			if len(rd.Generated) > 0 || len(reusable) > 0 {
+				fk = "genfail-after-assignment"
+			}
+		}
+		sig = fmt.Sprintf("r%d/n%d/%s/ud%v/ur%v/c%v/%s", ro, nb, rel, unusedDotted, usedRegistered, len(configured) > 0, fk)
 	}
 	r.Case(sig)
 	r.Count("tunnels_needing_hostname", int64(needed))
 	r.Count("generate_calls", int64(len(rd.Generated)))
+	r.Count("generate_calls_failed_by_script", int64(rd.GenFailed))
+	if rd.GenFailed > 0 {
+		r.Count("syncs_with_failed_hostname_request", 1)
+	}
 
 	if len(out) != len(in) {
 		bad("tunnel-count-changed", "the synchronised list has %d tunnels, the configuration had %d", len(out), len(in))
@@ -311,6 +342,7 @@ func judge(r *ev.Run, cname, replay string, ro int, rd round, calls []string, pa
 		reusableSet[h] = true
 	}
 	reused := 0
+	nameless := 0
 	for i := range in {
 		a, b := in[i], out[i]
 		if a.Target != b.Target || a.Insecure != b.Insecure || a.Mode != b.Mode || a.Host != b.Host {
@@ -320,7 +352,10 @@ func judge(r *ev.Run, cname, replay string, ro int, rd round, calls []string, pa
 			bad("configured-hostname-not-kept", "tunnel %d was configured with hostname %q and now has %q", i, a.Hostname, b.Hostname)
 		}
 		if b.Target != "" && b.Hostname == "" {
-			bad("tunnel-without-hostname", "tunnel %d (target %s) has no hostname after the synchronisation", i, b.Target)
+			nameless++
+			if rd.GenFailed == 0 {
+				bad("tunnel-without-hostname", "tunnel %d (target %s) has no hostname after the synchronisation", i, b.Target)
+			}
 			continue
 		}
 		if j, dup := seen[b.Hostname]; dup && b.Hostname != "" {
@@ -346,7 +381,16 @@ func judge(r *ev.Run, cname, replay string, ro int, rd round, calls []string, pa
 		wantReused = len(reusable)
 	}
 	wantGenerated := needed - wantReused
-	if len(rd.Generated) != wantGenerated {
+	if rd.GenFailed > 0 {
+		// some hostname requests were refused: tunnels may stay without a hostname, but only
+		// as many as requests failed, and reuse still comes first
+		if nameless > rd.GenFailed {
+			bad("tunnel-without-hostname", "%d tunnels have no hostname although only %d hostname requests failed", nameless, rd.GenFailed)
+		}
+		if len(rd.Generated)+rd.GenFailed > wantGenerated {
+			bad("generate-count", "%d tunnels needed a hostname, %d could be reused, yet GenerateHostname was called %d times (calls: %v)", needed, len(reusable), len(rd.Generated)+rd.GenFailed, calls)
+		}
+	} else if len(rd.Generated) != wantGenerated {
 		bad("generate-count", "%d tunnels needed a hostname and %d unused dot-free registered hostnames were available, so %d new hostnames were to be requested, but GenerateHostname was called %d times (calls: %v)", needed, len(reusable), wantGenerated, len(rd.Generated), calls)
 	}
 	if reused != wantReused {
